@@ -226,7 +226,7 @@ def r3(prog, ev, rep, fn):
 
 
 # ------------------------------------------------------------------------------------------- R4 R5 R6
-STR_PASSTHROUGH = ("::to_string", "::to_owned", "::clone", "::as_str", "::deref", "::borrow", "::as_ref", "::into", "::from")
+STR_PASSTHROUGH = ("::to_string", "::to_owned", "::clone", "::as_str", "::deref", "::borrow", "::as_ref", "::into", "::from", "::into_owned")
 
 
 def r4_r5_r6(prog, ev, rep, match_impl, search_impl):
@@ -402,6 +402,8 @@ def pattern_shape(ev, t):
             return None
         if x.k == "adt" and x.a[1] == "Some":
             return go(x.a[2][0][1])
+        if x.k == "adt" and x.a[0] == "alloc::borrow::Cow" and len(x.a[2]) == 1:
+            return go(x.a[2][0][1])         # Cow::Borrowed(s) / Cow::Owned(s): the same text
         return None
 
     shape = go(expand_closures(ev, t))
